@@ -169,14 +169,22 @@ VerdictXSet(o, tree) ==
 
 (* a label must navigate to the element it labels; when no step is reached  *)
 (* through a choice type, evaluating the label as FHIRPath must return that *)
-(* element (for a primitive a detached element of equal content is also     *)
-(* "that element": FHIRPath is value-oriented there).                       *)
+(* element (for a primitive a detached element of equal content or equal    *)
+(* value is also "that element": FHIRPath is value-oriented there).         *)
+SameValue(x, y) == x.t = y.t /\ (x.t = "s" => x.cp = y.cp) /\ (x.t = "b" => x.b = y.b) /\ (x.t = "i" => x.i = y.i)
 FpLocates(fp, tree, a) ==
   /\ fp.k = "ok" /\ fp.n = 1
   /\ LET it == fp.items[1]
+         nd == NodeAt(tree, a)
      IN /\ it.t = "el" /\ ~it.wrapped
         /\ \/ it.r = 1 /\ it.addr = a
-           \/ it.r = 0 /\ NodeAt(tree, a).k = "prim" /\ it.h = NodeAt(tree, a).h
+           \/ it.r = 0 /\ nd.k = "prim"
+              /\ (it.h = nd.h \/ (nd.v.t \in {"s", "b", "i"} /\ SameValue(it.v, nd.v)))
+(* does the way to address a pass through the string of a Reference? (the   *)
+(* interpreter synthesises that string; part of the signature only)         *)
+ViaReferenceString(tree, a) ==
+  \E j \in 1..(Len(a) - 1) : LET p == SubSeq(a, 1, j)
+                            IN NodeAt(tree, p).jn = "reference" /\ NodeAt(tree, SubSeq(a, 1, j - 1)).pn = "Reference"
 VerdictXLabel(o, tree) ==
   LET nav == Nav(tree, o.steps)
       pre == "extract|label|" \o o.T \o "|"
@@ -185,6 +193,7 @@ VerdictXLabel(o, tree) ==
      ELSE IF ~nav.ok THEN V(o.id, FALSE, pre \o "does-not-navigate|" \o nav.parent \o "." \o nav.name, o.el.addr)
      ELSE IF nav.addr # o.el.addr THEN V(o.id, FALSE, pre \o "navigates-elsewhere|" \o NodeName(tree, o.el.addr), o.el.addr)
      ELSE IF ~nav.choice /\ ~FpLocates(o.fp, tree, o.el.addr) THEN
-            V(o.id, FALSE, pre \o "fhirpath-" \o o.fp.k \o (IF o.fp.k = "ok" THEN ToString(o.fp.n) ELSE "") \o "|" \o NodeName(tree, o.el.addr), o.el.addr)
+            V(o.id, FALSE, pre \o "fhirpath-" \o o.fp.k \o (IF o.fp.k = "ok" THEN ToString(o.fp.n) ELSE "") \o "|"
+                           \o (IF ViaReferenceString(tree, o.el.addr) THEN "below-Reference.reference|" ELSE "") \o NodeName(tree, o.el.addr), o.el.addr)
      ELSE V(o.id, TRUE, "", <<>>)
 =============================================================================
